@@ -16,7 +16,7 @@ func (g *sgen) anyKind() rs.Value {
 		rs.Fun("car"), rs.Fun("(lambda (x) x)"), rs.Fun("(s:make-validator \"f\" s:int)"),
 		rs.Tagged("tv", rs.Int(1)), rs.Tagged("tw", rs.Nil()), rs.Tagged("tv", rs.Sym("true")),
 		rs.Sym("true"), rs.Sym("false"), rs.Sym("foo"), rs.Sym(":kw"),
-		rs.Str(""), rs.Str("false"), rs.Str("true"), rs.Str("a"),
+		rs.Str(""), rs.Str("false"), rs.Str("true"), rs.Str("a"), rs.Str("False"), rs.Str("FALSE"),
 		rs.Int(0), rs.Int(1), rs.Int(-1), rs.Float(0), rs.Float(0.5), rs.Float(-0.5),
 		rs.Vec(), rs.Vec(rs.Nil()), rs.Map(), rs.Map(rs.Entry{Key: "a", V: rs.Nil()}), rs.Bytes(""), rs.Bytes("a"),
 	}).Draw(g.t, "anykind")
